@@ -7,7 +7,7 @@
 (* the semantics only speaks of the key a handle designates.               *)
 (* Properties C04, C05, C08, C09, C12, C13, C17 are statements about it.   *)
 (***************************************************************************)
-EXTENDS Integers, Sequences, FiniteSets, FiniteSetsExt      \* FiniteSetsExt: linear-time Max / Min of a set
+EXTENDS Integers, Sequences, FiniteSets, FiniteSetsExt      \* FiniteSetsExt: FoldSet (linear; its Max / Min are quadratic under TLC)
 
 VARIABLES m,      \* [keys -> values]
           des     \* [issued handles -> keys]
@@ -20,8 +20,8 @@ Empty == [x \in {} |-> 0]
 Without(f, k) == [x \in (DOMAIN f) \ {k} |-> f[x]]
 With(f, k, v) == [x \in (DOMAIN f) \cup {k} |-> IF x = k THEN v ELSE f[x]]
 
-MaxOf(S) == Max(S)
-MinOf(S) == Min(S)
+MaxOf(S) == FoldSet(LAMBDA a, b : IF a > b THEN a ELSE b, CHOOSE x \in S : TRUE, S)
+MinOf(S) == FoldSet(LAMBDA a, b : IF a < b THEN a ELSE b, CHOOSE x \in S : TRUE, S)
 
 HasPred(p) == \E k \in Dom : k <= p
 Pred(p)    == MaxOf({k \in Dom : k <= p})
@@ -47,6 +47,16 @@ Init == m = Empty /\ des = Empty
 Insert(k, v, keepHandles) ==
   /\ CanInsert(k)
   /\ m' = With(m, k, v)
+  /\ des' = IF keepHandles THEN des ELSE Empty
+\* a run of insertions of the keys lo, lo + step, .. <= hi, key k with value k * vm + va, in any order
+BulkKeys(lo, hi, step) == {lo + i * step : i \in 0..((hi - lo) \div step)}
+InBulk(x, lo, hi, step) == x >= lo /\ x <= hi /\ ((x - lo) % step) = 0        \* membership by arithmetic (linear scans)
+CanBulk(lo, hi, step)  == step > 0 /\ lo <= hi /\ \A x \in Dom : ~InBulk(x, lo, hi, step)
+BulkMap(lo, hi, step, vm, va) ==
+  [x \in Dom \cup BulkKeys(lo, hi, step) |-> IF InBulk(x, lo, hi, step) THEN x * vm + va ELSE m[x]]
+BulkInsert(lo, hi, step, vm, va, keepHandles) ==
+  /\ CanBulk(lo, hi, step)
+  /\ m' = BulkMap(lo, hi, step, vm, va)
   /\ des' = IF keepHandles THEN des ELSE Empty
 Delete(k)      == m' = Without(m, k) /\ des' = Empty          \* absent key: m unchanged
 Clear          == m' = Empty /\ des' = Empty
